@@ -110,4 +110,22 @@ theorem getWith_percall (cfg : Cfg) (d : Desc) (toks : List Nat) (key : Nat) (op
         have : rfCall.toNat = cfg.rf := by omega
         rw [this]
 
+/-- the integer-second predicate at the rounded-up clock IS the nanosecond-exact predicate -/
+theorem isHealthyAt_eq_ceil (op : Op) (timeout sec : Int) (nanos : Nat) (i : Inst) (hn : nanos < 1000000000) :
+    isHealthyAt op timeout sec nanos i = isHealthy op timeout (ceilNow sec nanos) i := by
+  unfold isHealthyAt isHealthy ceilNow
+  congr 1
+  apply decide_eq_decide.mpr
+  split <;> omega
+
+theorem filter_exact_subsecond (cfg : Cfg) (op : Op) (sec : Int) (nanos : Nat) (rf : Nat) (l : List Inst)
+    (hn : nanos < 1000000000) :
+    filter cfg op (ceilNow sec nanos) rf l =
+      (if (l.filter (isHealthyAt op cfg.hbTimeout sec nanos)).length < majority rf l.length then .error .tooManyUnhealthy
+       else .ok { instances := l.filter (isHealthyAt op cfg.hbTimeout sec nanos),
+                  maxErrors := (l.filter (isHealthyAt op cfg.hbTimeout sec nanos)).length - majority rf l.length }) := by
+  have : isHealthyAt op cfg.hbTimeout sec nanos = isHealthy op cfg.hbTimeout (ceilNow sec nanos) :=
+    funext fun i => isHealthyAt_eq_ceil op cfg.hbTimeout sec nanos i hn
+  rw [this]; exact filter_exact cfg op (ceilNow sec nanos) rf l
+
 end PfC01
